@@ -125,6 +125,8 @@ def unit_part(ctx, behs):
     """handle discipline of the real TransportService (ServiceHarness, scripted time): every TLC behaviour (incl. opens
     refused with ChannelClogged, expiries, opened/failed/inbound substreams) and seeded random histories over two
     connections and three protocols; TLC validates the projections against KeepAlive.tla Part 2"""
+    if len(behs) > 60000:       # keep TLC trace validation of the unit part within the thorough budget
+        behs = random.Random(ctx.seed).sample(behs, 60000)
     write_jsonl(ctx.path("ubehs.jsonl"), [{"stims": b["stims"]} for b in behs])
     nrand, rlen = (600, 40) if ctx.quick() else (6000, 60)
     summ, _ = harness(ctx, "kasvc", ["--behaviours", ctx.path("ubehs.jsonl"), "--random", nrand, "--len", rlen, "--seed", ctx.seed,
